@@ -294,6 +294,12 @@ def run_case(text, pred, strategy, jobs, sched, rec, case, check_fixed=True):
                 # exercise the parallel code path on small inputs as well
                 self.pickled_exprs = NoPickle.dumps(exprs)
 
+        def __next__(self):
+            # C13: simplifications are generated from self.exprs right here,
+            # also after update() installed an accepted result
+            tree_check('TaskGenerator.__next__', self.exprs)
+            return super().__next__()
+
     patch(strategy_ddmin, 'TaskGenerator', TG)
     setattr(strategy_ddmin, '__abort_flag', None)
     try:
@@ -372,6 +378,12 @@ INPUTS = {
     'order-dep': '(assert a)\n(assert (f b))\n(assert c)\n',
     # a renaming only the last pass proposes enables an earlier renaming
     'rename-dep': '(declare-const aa Bool)\n(declare-const bb Bool)\n',
+    # eliminating x inserts one (g y) object at three positions; the next
+    # task of the same ddmin level eliminates y inside them
+    'elim-chain': '(declare-const x Int)\n(declare-const y Int)\n'
+                  '(declare-fun g (Int) Int)\n'
+                  '(declare-fun p (Int Int) Bool)\n(assert (= x (g y)))\n'
+                  '(assert (= y 3))\n(assert (p x x))\n',
 }
 
 PREDS = {
@@ -384,6 +396,9 @@ PREDS = {
     'rename-dep': lambda tk: tk.count('declare-const') == 2 and
     tk.count('Bool') == 2 and len(tk) == 10 and
     ('aa' in tk or 'bb' not in tk),
+    # accepts everything but two particular intermediate forms
+    'elim-chain': lambda tk: '( = ( g y ) ( g 3 ) )' not in ' '.join(tk) and
+    '( = y y )' not in ' '.join(tk) and 'p' in tk,
 }
 
 
